@@ -37,7 +37,7 @@ PROPS = {
     "C10": {"families": [("hist", "values", 500), ("poke", None, 80), ("match", None, 1500)], "obligations": P("Props.C10", "Props.Refine"), "rule": HIST_RULE},
     "C11": {"families": [("race", None, 1)], "obligations": P("Props.C11") + [(TL, "Minidyn.Tie.wellLocked_generated_v1"), (TL, "Minidyn.Tie.wellLocked_generated_v2"),
                                                               (TL, "Minidyn.Tie.wellLocked_nonvacuous")], "rule": "pairs of client methods run concurrently under the race detector"},
-    "C12": {"families": [("hist", "numbers", 400), ("num", None, 3000), ("update", None, 2500), ("match", None, 1500)], "obligations": P("Props.C12"), "rule": HIST_RULE},
+    "C12": {"families": [("hist", "numbers", 400), ("num", None, 3000), ("update", None, 2500), ("match", None, 1500)], "obligations": P("Props.C12", "Props.C12Order"), "rule": HIST_RULE},
     "C13": {"families": [("hist", "keys", 600)], "obligations": P("Props.C13", "Props.C13Start"), "rule": HIST_RULE},
     "C14": {"families": [("poke", None, 150)], "obligations": P("Props.C14") + [(TS, "Minidyn.Tie.noSharing_generated_v1"), (TS, "Minidyn.Tie.noSharing_generated_v2"),
                                                                (TS, "Minidyn.Tie.sharing_covers_mappers"), (TS, "Minidyn.Tie.no_singleton_leak"), (TS, "Minidyn.Tie.copy_helpers_reviewed")],
